@@ -7,6 +7,8 @@ mod wire;
 mod wiregen;
 #[path = "../wirebound.rs"]
 mod wirebound;
+#[path = "../wireattr.rs"]
+mod wireattr;
 
 use bytes::BytesMut;
 use rustybgp_packet::{bfd, rpki};
@@ -168,6 +170,34 @@ fn bfd_one(b: &[u8]) -> Term {
     }
 }
 
+/// the attribute-body parsers that the daemon runs lazily on received bytes (daemon/src/convert.rs): no result is
+/// compared, only "returns, without a panic, in bounded time" (a watchdog thread turns a hang into `stall`)
+fn xattr_one(kind: &str, b: &[u8]) -> Term {
+    let kind = kind.to_string();
+    let data = b.to_vec();
+    let (tx, rx) = std::sync::mpsc::channel();
+    std::thread::spawn(move || {
+        let r = catch_unwind(AssertUnwindSafe(|| match kind.as_str() {
+            "tunnel" => {
+                let _ = rustybgp_packet::tunnel_encap::decode(&data);
+            }
+            "psid" => {
+                let _ = rustybgp_packet::prefix_sid::PrefixSid::decode(&data);
+            }
+            _ => {
+                let _ = rustybgp_packet::ls::parse_ls_attr(&data);
+            }
+        }));
+        let _ = tx.send(r.is_ok());
+    });
+    let what = match rx.recv_timeout(std::time::Duration::from_secs(5)) {
+        Ok(true) => "done",
+        Ok(false) => "panic",
+        Err(_) => "stall",
+    };
+    Term::tag("obs", vec![Term::list(vec![Term::atom(what)])])
+}
+
 fn run_case(line: &str) -> String {
     let bad = "(bad-case)".to_string();
     let Some(t) = Term::parse(line) else { return bad };
@@ -184,6 +214,17 @@ fn run_case(line: &str) -> String {
                 return bad;
             }
             bgp_stream(&desc, &chunks).to_string()
+        }
+        Some("xattr") => {
+            if l.len() != 3 {
+                return bad;
+            }
+            let Some(kind) = l[1].as_atom() else { return bad };
+            if kind != "tunnel" && kind != "psid" && kind != "ls" {
+                return bad;
+            }
+            let Some(b) = bytes_of(&l[2]) else { return bad };
+            xattr_one(kind, &b).to_string()
         }
         Some("rtr") => {
             if l.len() != 2 {
@@ -213,6 +254,9 @@ fn main() {
             let n: usize = a[3].parse().expect("n");
             // the systematic boundary stream first (deterministic), then the random stream
             for l in wirebound::boundary_cases() {
+                println!("{}", l);
+            }
+            for l in wireattr::attr_boundary_cases() {
                 println!("{}", l);
             }
             for l in wiregen::gen_c03(seed, n, &a[4]) {
